@@ -338,7 +338,10 @@ class CheckRun:
             chunk = coqable[k:k + BATCH]
             fname = f"cases_{self.prop}_{s.name}_{k // BATCH}.v"
             body = [s.imports, "Local Open Scope Z_scope.",
-                    "Definition cases := " + clist("\n  " + r.coq for _, r in chunk) + ".",
+                    # the list literal is elaborated against the domain of the check function, so that a batch whose
+                    # cases all contain un-annotated `[]` / `None` still type-checks (this once caused false alarms)
+                    "Definition typed_cases_ {A : Type} (f : A -> bool) (l : list A) : list A := l.",
+                    f"Definition cases := typed_cases_ {s.check} " + clist("\n  " + r.coq for _, r in chunk) + ".",
                     f"Definition failing := failing_cases {s.check} cases.",
                     "Eval vm_compute in failing.",
                     f"Example corr_{self.prop}_{s.name}_{k // BATCH} : forallb {s.check} cases = true.",
